@@ -135,7 +135,7 @@ def run(idx, rep, tier):
                                              "ret": ast.unparse(ret.value)[:60]})
                     b["n"] += 1
         construct = rule.role
-        rep.count("annot-sound", proved=n_ok, nontrivial=n_ok if not generic else 0)
+        rep.count("annot-sound", proved=n_ok, nontrivial=n_ok if not generic else 0, refuted=sum(b["n"] for b in bad.values()))
         if n_und and not n_ok and not bad:
             rep.undecided("annot-rule", construct, f"rule outside the interpreted fragment: {sorted(und_why)[:3]}", locs=[rule.loc])
         elif not bad:
